@@ -37,10 +37,17 @@ package filters
 //@ const theInfo = extraInfoOf(reqCtxOf(param("req")))
 //@ const hostKey = toLower(theInfo.Hostname)
 
-//@ func WithUpstreamInfo$1 props C10
+//@ func WithUpstreamInfo$1 props C10, C12
 //@   requires [wf] req != nil && handler != nil && clusterManager != nil
 //@   modifies *
 //@   ensures [by_host] old(theInfo) != nil && !isIP(old(theInfo.Hostname)) && nextcalls != old(nextcalls) ==> old(theInfo).UpstreamCluster != nil && old(theInfo).UpstreamCluster == old(reg[clusterManager][hostKey]) && old(theInfo).IsProxyRequest
 //@   ensures [unknown_host_refused] old(theInfo) != nil && !isIP(old(theInfo.Hostname)) && old(reg[clusterManager][hostKey]) == nil ==> nextcalls == old(nextcalls) && terminated == old(terminated) + 1 && lastterm == 503
 //@   ensures [info_travels] nextcalls != old(nextcalls) ==> nextcalls == old(nextcalls) + 1 && (old(theInfo) != nil ==> extraInfoOf(reqCtxOf(nextreq)) == old(theInfo) && old(theInfo).Hostname == old(theInfo.Hostname))
 //@   ensures [ip_untouched] old(theInfo) != nil && isIP(old(theInfo.Hostname)) ==> old(theInfo).UpstreamCluster == old(theInfo.UpstreamCluster) && nextcalls == old(nextcalls) + 1
+
+// (C04) The trace-log body wrapper reads the inner body exactly once per Read and hands on exactly what that read answered:
+// the same byte count (the bytes are in the caller's buffer) together with the same error -- also when data arrives with io.EOF.
+//@ func (*traceReader).Read props C04
+//@   requires [wf] r.ReadCloser != nil
+//@   modifies *
+//@   ensures [relayed_unchanged] rdcount == old(rdcount) + 1 && result == rdn && result1 == rderr
